@@ -103,7 +103,12 @@ async def wire(net, hyg, plan):
     async def attempt(user, verb, arg, cwd, moved=None, after=None):
         reset()
         s = Session(net, 2121, name=user)
-        if after:
+        if isinstance(after, tuple):
+            # the other account had left its home directory and looked at the same (relative) argument from there; the re-login
+            # puts the session back into the home directory, and the argument is given again at once
+            who_, away_ = after
+            await s.run([["connect"], ["login", who_, "pw"], ["cmd", "CWD " + away_], ["cmd", "MLST " + arg], ["login", user, "pw"]])
+        elif after:
             # the same control connection was used by another account before, which looked at the same path
             await s.run([["connect"], ["login", after, "pw"]])
             if cwd:
@@ -197,6 +202,17 @@ async def wire(net, hyg, plan):
                         viol.append({"key": f"permission-differs-after-relogin:{verb}",
                                      "msg": f"{where}: as 't' on a fresh connection {got['codes']}; as 't' after user 'c' had used the "
                                             f"connection and looked at the path: {again['codes']}"})
+                if label == "plain" and verb != "CDUP" and arg.startswith("/") and len(arg) > 1:
+                    # ... and the same argument spelled relative to the home directory, after another login on this connection had
+                    # given the very same text from another directory
+                    rel_ = arg[1:]
+                    fresh = await attempt("t", verb, rel_, None)
+                    moved_ = await attempt("t", verb, rel_, None, after=("c", "/pub/in" if not arg.startswith("/pub/in") else "/priv"))
+                    mon["after_relogin_elsewhere"] = mon.get("after_relogin_elsewhere", 0) + 1
+                    if fresh is not None and moved_ is not None and (fresh["codes"] != moved_["codes"] or fresh["tree"] != moved_["tree"]):
+                        viol.append({"key": f"permission-differs-after-relogin:{verb}",
+                                     "msg": f"{where}: as 't' on a fresh connection {verb} {rel_!r} -> {fresh['codes']}; after user 'c' had given "
+                                            f"the same argument from another directory on this connection: {moved_['codes']}"})
                 if (allowed and label == "relative" and verb in ("LIST", "MLSD", "RETR", "STOR", "APPE") and got["codes"]
                         and got["codes"][-1][:1] == ["150"]):
                     # the working directory changes between the mark and the data connection: the transfer is still the one
